@@ -124,6 +124,13 @@ fn rel_close_nonneg(a: f64, b: f64, tol: f64) -> bool {
     (a - b).abs() <= tol * a.abs().max(b.abs()) + 1e-300
 }
 
+thread_local! {
+    /// Set while a harness scope whose state-init hook registered a surrogate evaluator (one that
+    /// assigns values without calling the objective function) is open: the evaluation steps
+    /// inside it are not evaluations of the problem's objective.
+    pub static SURROGATE_SCOPE: std::cell::Cell<bool> = const { std::cell::Cell::new(false) };
+}
+
 /// Bit pattern with the two zeros identified: -0.0 and 0.0 are the same objective value, and
 /// which of them a memory holds after a tie is not determined by the properties.
 pub fn zbits(v: f64) -> u64 {
@@ -280,6 +287,7 @@ impl<P: HProblem> Obs<P> {
             pops.get_current().map(pop_kvs::<P>)
         };
         match kind {
+            "PopulationEvaluator" if SURROGATE_SCOPE.with(|f| f.get()) => Pre::None,
             "PopulationEvaluator" => Pre::Eval {
                 pop: cur_pop().map(|p| p.into_iter().map(|(k, _)| k).collect()),
                 evals: state.try_get_value::<Evaluations>().ok(),
@@ -844,7 +852,7 @@ impl<P: HProblem> Observer<P> for Obs<P> {
             bump(&mut d.counters, &format!("steps of {kind}"), 1);
             // the counter advances by exactly the objective calls made, whatever the component
             let calls = problem.instr().n_calls();
-            if let (Some(e0), Ok(e1)) = (open.evals, state.try_get_value::<Evaluations>()) {
+            if let (Some(e0), Ok(e1), false) = (open.evals, state.try_get_value::<Evaluations>(), SURROGATE_SCOPE.with(|f| f.get())) {
                 if e1.wrapping_sub(e0) as usize != calls - open.calls {
                     d.violate("C06", format!("step-counter-delta step={kind}"), format!("({}) step {kind}: evaluation counter {e0} -> {e1} while the objective was called {} times", self.case.kind.name(), calls - open.calls));
                 }
